@@ -65,8 +65,8 @@ def gen_histories(ctx):
     quick = ctx.tier == "quick"
     # (Timed, operations per history, number of histories)
     plan = [(False, 12, 60), (False, 25, 100), (False, 25, 100), (False, 40, 40)] if quick else \
-           [(False, 12, 200), (False, 25, 300), (False, 25, 300), (False, 25, 300), (False, 40, 200), (False, 60, 100),
-            (True, 14, 24), (True, 14, 24), (True, 20, 24), (True, 20, 24)]
+           [(False, 12, 150), (False, 25, 200), (False, 25, 200), (False, 25, 200), (False, 40, 120), (False, 60, 60),
+            (True, 14, 24), (True, 14, 24), (True, 20, 24), (True, 20, 24)]    # (about 5 GB of recorded events in this process)
 
     def gen(k):
         timed, depth, num = plan[k]
